@@ -2225,7 +2225,7 @@ def canon(x):
 def run(run):
     _register_module()
     rng = run.rng
-    n_hist = 220 if run.thorough else 36
+    n_hist = 220 if run.thorough else 30
     nops = 60 if run.thorough else 45
     run.rule = ('seeded operation histories: repository of 2-3 namespaces built by the history itself (qualifier '
                 'declarations and a random class forest with associations / EmbeddedInstance / Indication classes via '
